@@ -145,13 +145,11 @@ theorem mapM_congr_mem {α β : Type} {l : List α} {f g : α → Except Err β}
     rw [List.mapM_cons, List.mapM_cons, h x (by simp), ih fun y hy => h y (List.mem_cons_of_mem _ hy)]
 
 omit hA in
-theorem arrIndex_eq (k : Key) (hb : k.isBool = false) :
-    pyArrIndex k = Spec.arrIndex k := by
-  cases k <;> simp_all [pyArrIndex, Spec.arrIndex, Key.isBool]
+theorem arrIndex_eq (k : Key) : pyArrIndex k = Spec.arrIndex k := by
+  cases k <;> rfl
 
 theorem lookupItem_eq {s : Store} (hM : MapsOK K s) (ks : Option (List Key))
-    (hks : ∀ l, ks = some l → (∀ k ∈ l, k ∈ K) ∧
-      l.any Key.isBool = false) (it : Item) :
+    (hks : ∀ l, ks = some l → (∀ k ∈ l, k ∈ K)) (it : Item) :
     lookupItem (pyDialect false) s ks it = lookupItem specDialect s ks it := by
   cases it with
   | atom k => rfl
@@ -167,7 +165,7 @@ theorem lookupItem_eq {s : Store} (hM : MapsOK K s) (ks : Option (List Key))
         | none => rfl
         | some l =>
           simp only [pyDialect, specDialect]
-          obtain ⟨hl, _⟩ := hks l rfl
+          have hl := hks l rfl
           congr 1
           rw [List.flatMap_def, List.flatMap_def]
           congr 1
@@ -179,12 +177,10 @@ theorem lookupItem_eq {s : Store} (hM : MapsOK K s) (ks : Option (List Key))
         | none => rfl
         | some l =>
           simp only [pyDialect, specDialect]
-          obtain ⟨_, hb⟩ := hks l rfl
           congr 1
           apply mapM_congr_mem
           intro k hk
-          have := List.any_eq_false.1 hb k hk
-          rw [arrIndex_eq k (by simpa using this)]
+          rw [arrIndex_eq k]
           cases Spec.arrIndex k with
           | error e => rfl
           | ok p => simp only [bind, Except.bind]; exact arrGet_eq ms p
@@ -192,11 +188,11 @@ theorem lookupItem_eq {s : Store} (hM : MapsOK K s) (ks : Option (List Key))
 
 /-- the literal keys of the operation are in `K`, and no `?` lookup has a boolean key -/
 def OpOK (K : List Key) (op : Op) : Prop :=
-  (∀ k ∈ opKeys op, k ∈ K) ∧ opBoolLookup op = false ∧ opIsDeq op = false
+  (∀ k ∈ opKeys op, k ∈ K) ∧ opIsDeq op = false
 
 theorem evalOp_refine (st : St) (hM : MapsOK K st.store) (op : Op) (hop : OpOK K op) :
     evalOp (pyDialect false) st op = evalOp specDialect st op := by
-  obtain ⟨hkeys, hbool, hdeq⟩ := hop
+  obtain ⟨hkeys, hdeq⟩ := hop
   cases op with
   | seq parts => rfl
   | mCtor es =>
@@ -204,7 +200,7 @@ theorem evalOp_refine (st : St) (hM : MapsOK K st.store) (op : Op) (hop : OpOK K
     rw [py_ctor_eq hA]
     intro e he
     obtain ⟨x, hx, rfl⟩ := List.mem_map.1 he
-    exact hkeys x.1 (List.mem_map.2 ⟨x, hx, rfl⟩)
+    exact hkeys (ctorKey x.1) (List.mem_map.2 ⟨x, hx, rfl⟩)
   | mPut m k v =>
     simp only [evalOp, pyDialect, specDialect]
     cases h : asMap st.store (st.var m) with
@@ -269,7 +265,7 @@ theorem evalOp_refine (st : St) (hM : MapsOK K st.store) (op : Op) (hop : OpOK K
     simp only [evalOp]
     rw [mapM_congr_mem fun it _ => lookupItem_eq hA hM ks (fun l hl => by
       subst hl
-      exact ⟨fun k hk => hkeys k (by simpa [opKeys] using hk), by simpa [opBoolLookup] using hbool⟩) it]
+      exact fun k hk => hkeys k (by simpa [opKeys] using hk)) it]
   | aSquare ms => rfl
   | aCurly v => rfl
   | aGet a p => simp only [evalOp, pyDialect, specDialect, arrGet_eq]
@@ -378,12 +374,12 @@ theorem ok_alloc_arr {s s' : Store} {ms : List Seq} {v' : Seq} (hM : MapsOK K s)
 
 theorem evalOp_spec_MapsOK (st : St) (hM : MapsOK K st.store) (op : Op) (hop : OpOK K op)
     (s' : Store) (v : Seq) (h : evalOp specDialect st op = .ok (s', v)) : MapsOK K s' := by
-  obtain ⟨hkeys, hbool, hdq⟩ := hop
+  obtain ⟨hkeys, hdq⟩ := hop
   cases op <;> simp only [evalOp, specDialect, writeBack, Bool.false_eq_true, ↓reduceIte] at h
   case mCtor es =>
     refine liftAlloc_map_ok hM (fun es' hes' => spec_construct_ok hA (fun e he => ?_) hes') h
     obtain ⟨x, hx, rfl⟩ := List.mem_map.1 he
-    exact hkeys x.1 (List.mem_map.2 ⟨x, hx, rfl⟩)
+    exact hkeys (ctorKey x.1) (List.mem_map.2 ⟨x, hx, rfl⟩)
   case mEntry k vv =>
     refine liftAlloc_map_ok hM (fun es' hes' => spec_construct_ok hA (fun e he => ?_) hes') h
     simp at he; subst he; exact hkeys k (by simp [opKeys])
